@@ -118,7 +118,7 @@ func runTrace() *ShardResult {
 		b, _ := json.Marshal(part)
 		os.WriteFile(in, b, 0o644)
 		tr := filepath.Join(work, fmt.Sprintf("trace-%d.txt", lo))
-		cmd := exec.Command("strace", "-f", "-s", "300", "-o", tr, "-e", "trace=openat,close,pwrite64,write,fsync,fdatasync,fallocate,ftruncate,unlinkat,unlink,rename,renameat,renameat2",
+		cmd := exec.Command("strace", "-f", "-s", "300", "-o", tr, "-e", "trace=openat,close,pwrite64,write,fsync,fdatasync,fallocate,ftruncate,unlinkat,unlink,rmdir,rename,renameat,renameat2",
 			*fPlainBin, "-prop", "C07CHILD", "-in", in, "-out", filepath.Join(work, "child.json"))
 		cmd.Env = append(os.Environ(), "GOMAXPROCS=2")
 		out, err := cmd.CombinedOutput()
@@ -286,6 +286,19 @@ func runTraceChild() *ShardResult {
 		dir, err := os.MkdirTemp(core.ScratchRoot(), "verif-tr-")
 		if err != nil {
 			os.Exit(2)
+		}
+		if wl.ID%3 == 0 {
+			// the same path has held an earlier WAL directory in this process (removed and created again):
+			// what the process remembers about the old directory must not stand in for the new one
+			if w0, err := wal.Open(dir, wal.WithSegmentSize(wl.Cfg.SegSize)); err == nil {
+				w0.StoreLog(core.MkLog(1, 0, 4))
+				w0.StoreLog(core.MkLog(2, 0, 4))
+				w0.Close()
+			}
+			os.RemoveAll(dir)
+			if err := os.Mkdir(dir, 0o700); err != nil {
+				os.Exit(2)
+			}
 		}
 		mark("%d BEGIN %s %d", wl.ID, dir, wl.Cfg.SegSize)
 		mark("%d CALL 0 open", wl.ID)
